@@ -1,5 +1,6 @@
 import GlonaxModel.Driver.C07
 import GlonaxModel.Driver.Hcu
+import GlonaxModel.Driver.Wire
 open Glonax.Driver
 
 def dispatch (prop : String) (inp out : List String) : Verdict :=
@@ -8,6 +9,7 @@ def dispatch (prop : String) (inp out : List String) : Verdict :=
   | "C01" => C01.check inp out
   | "C02" => C02.check inp out
   | "C17" => C17.check inp out
+  | "C13" => C13.check inp out
   | _ => .bad s!"unknown property {prop}"
 
 structure Tally where
